@@ -78,6 +78,23 @@ def _attrs_of(o):
     return d if d is not None else {}
 
 
+def _coerced_eq(g, e):
+    """grouped labels are built through np.array(list of tuples): the members' labels arrive coerced to one common dtype
+    (everything a string next to a string member, integers as float64 next to a float member - beyond 2**53 not exactly)"""
+    if len(g) != len(e):
+        return False
+    for x, y in zip(g, e):
+        if x == y or str(x) == str(y):
+            continue
+        try:
+            if isinstance(x, float) and not isinstance(y, (str, bytes)) and x == float(y):
+                continue
+        except Exception:
+            pass
+        return False
+    return True
+
+
 def snap_axis(ax):
     if isinstance(ax, MultiAxis):
         # lazily built caches (_values, _size) are not part of the observable state: populating them is not a mutation
@@ -175,7 +192,7 @@ def wf_problems(a):
                     exp = list(itertools.product(*[m._values.tolist() for m in members]))
                     got = cached.tolist()
                     bad = [k for k, (g, e) in enumerate(zip(got, exp))
-                           if not (tuple(g) == e or tuple(map(str, g)) == tuple(map(str, e)))]
+                           if not (tuple(g) == e or tuple(map(str, g)) == tuple(map(str, e)) or _coerced_eq(g, e))]
                     if bad:
                         out.append("grouped axis %r: cached labels stale at %d: %r vs members %r" % (nm, bad[0], got[bad[0]], exp[bad[0]]))
         else:
